@@ -2,6 +2,7 @@ package eng
 
 import (
 	"fmt"
+	"net/http"
 	"os"
 	"path/filepath"
 	"regexp"
@@ -14,6 +15,7 @@ import (
 
 	"github.com/anishathalye/porcupine"
 	"github.com/issue9/mux/v9"
+	"github.com/issue9/mux/v9/types"
 
 	"verifharness/mon"
 	"verifharness/ref"
@@ -124,6 +126,7 @@ type c06Run struct {
 	c          *Ctx
 	env        *mon.Env
 	r          *mux.Router[*mon.Hnd]
+	h          http.Handler // what readers serve through: the router itself or a Group it was added to
 	clock      atomic.Int64
 	mu         sync.Mutex
 	events     []cEvent
@@ -177,7 +180,7 @@ func (x *c06Run) serve(client int, p cPattern, method, value string) {
 	path := p.witness(value)
 	allowOf, allow := "", ""
 	ev := x.do(client, cInput{Op: "serve", Pat: p.pat, Method: method, Path: path, Value: value}, func() cOutput {
-		o := mon.Do(x.r, mon.Req{Method: method, Path: path})
+		o := mon.Do(x.h, mon.Req{Method: method, Path: path})
 		if o.H != nil && (o.H.Base.Kind == mon.KOptions || o.H.Base.Kind == mon.K405) && o.Header != nil {
 			allowOf, allow = o.H.Base.Pattern, strings.Join(mon.AllowSet(o.Header.Get("Allow")), ",")
 		}
@@ -475,6 +478,14 @@ func runC06(c *Ctx) {
 	env.OnBuilder, env.OnMiddleware, env.OnCall = yield, yield, yield
 	x := &c06Run{c: c, env: env, untouchedH: map[string]*mon.Hnd{}}
 	x.r = env.NewRouter("r", mux.WithLock(true), mux.WithInterceptor(yieldDigits, "yield"))
+	x.h = x.r
+	if r.Chance(1, 3) {
+		// the other way to serve a router: through a Group it was added to (a matcher that accepts everything)
+		g := env.NewGroup()
+		g.Add(nil, x.r)
+		x.h = g
+		c.Class("served_through_a_group")
+	}
 	mw := env.MW("m")
 
 	for _, u := range c06Untouched {
@@ -517,6 +528,8 @@ func runC06(c *Ctx) {
 		c.Class("twin_group_not_modelled")
 	}
 	writers, readers := r.Range(2, 4), r.Range(4, 8)
+	sharedMW := make([]muxMW, 1, 8)
+	sharedMW[0] = mw
 	opsPerWriter, opsPerReader := r.Range(30, 70), r.Range(40, 90)
 	var wg sync.WaitGroup
 	methods := []string{"GET", "POST", "PUT", "DELETE"}
@@ -526,6 +539,7 @@ func runC06(c *Ctx) {
 		go func(w int) {
 			defer wg.Done()
 			lr := ref.NewR(seed)
+			px := x.r.Prefix("", env.MW(fmt.Sprintf("pw%d", w))) // this writer's facade: the empty prefix with a middleware of its own
 			for i := 0; i < opsPerWriter; i++ {
 				var t cPattern
 				if lr.Chance(1, 2) { // owned by this writer
@@ -542,9 +556,20 @@ func runC06(c *Ctx) {
 						ms = perm[:lr.Range(2, 3)]
 					}
 					h := env.NewHnd(mon.KRoute, t.pat)
-					x.do(w, cInput{Op: "handle", Pat: t.pat, Method: strings.Join(ms, ","), ID: h.ID}, func() cOutput {
-						ok, _ := tryHandle(x.r, t.pat, h, ms, mw)
-						return cOutput{OK: ok}
+					viaPrefix := lr.Bool()
+					x.do(w, cInput{Op: "handle", Pat: t.pat, Method: strings.Join(ms, ","), ID: h.ID}, func() (out cOutput) {
+						// every writer passes the same middleware slice (one element, spare capacity): it is only ever read
+						defer func() {
+							if recover() != nil {
+								out.OK = false
+							}
+						}()
+						if viaPrefix {
+							px.Handle(t.pat, h, sharedMW, ms...)
+						} else {
+							x.r.Handle(t.pat, h, sharedMW, ms...)
+						}
+						return cOutput{OK: true}
 					})
 				case k < 15:
 					m := ref.Pick(lr, methods)
@@ -595,7 +620,7 @@ func runC06(c *Ctx) {
 					m := ref.Pick(lr, []string{"GET", "POST", "HEAD", "OPTIONS", "PUT", "BOGUS"})
 					v := fmt.Sprintf("%d", 1000000+uniq.Add(1))
 					path := u.witness(v)
-					o := mon.Do(x.r, mon.Req{Method: m, Path: path})
+					o := mon.Do(x.h, mon.Req{Method: m, Path: path})
 					c06CheckUntouched(x, u, m, v, path, o)
 				case k < 16:
 					t := ref.Pick(lr, toggled)
@@ -661,6 +686,13 @@ func runC06(c *Ctx) {
 	}
 	wg.Wait()
 
+	// quiescent again: every request context went back to the pool exactly once
+	if a, b := types.NewContext(), types.NewContext(); a == b {
+		x.violate("after the concurrent load the context pool hands out the same context twice (a context was returned to the pool twice)")
+	} else {
+		a.Destroy()
+		b.Destroy()
+	}
 	for _, v := range x.viol {
 		c.Violate(v, map[string]any{"gomaxprocs": procs, "writers": writers, "readers": readers})
 	}
